@@ -76,6 +76,16 @@ IllFormedCases ==
 
 MC_Cases == NameCases \cup IconCases \cup IllFormedCases
 
+\* the part of this corpus that C04 replays (capacity handling of text members must not crash)
+C04_Cases ==
+    {TCase("User", [UserMin EXCEPT !.name = <<n>>], "user.name") : n \in StraddleNames}
+    \cup {SentCase(1, [McReqMin EXCEPT !.user = [UserMin EXCEPT !.name = <<n>>, !.displayName = <<n>>],
+                                       !.rp = [RpMin EXCEPT !.name = <<n>>]], "mc.names", F) : n \in StraddleThin}
+    \cup {SentCase(10, [CmReqMin EXCEPT !.subCommand = 7,
+                                        !.subCommandParams = <<[CmParamsMin EXCEPT !.user = <<[UserMin EXCEPT !.displayName = <<n>>]>>]>>],
+                   "cm.updateUserInformation.displayName", F) : n \in StraddleThin}
+    \cup IconCases
+
 (***************************************************************************)
 (* C13 on the model                                                        *)
 (***************************************************************************)
